@@ -23,11 +23,13 @@ OUTSIDE = "rounding and the numerical quality of SuperLU; graphs beyond the boun
 ASSUMPTIONS = ["information matrices symmetric", "vertex ids pairwise distinct", "spsolve stub returns an arbitrary vector (its contract H dx = rhs is not needed for this property)", "lil_matrix stub = dense object matrix with numpy slice-assignment semantics"]
 
 
-def _case(kinds, edges, fixed, ff, prelinearize=False):
+def _case(kinds, edges, fixed, ff, prelinearize=False, epoch=False):
     def fn(P, g):
         np = P.np
         env = install_stubs(P, g)
-        graph, verts, eobjs, ids = structure_graph(P, g, kinds, edges, fixed)
+        # epoch: chi^2 is a free non-negative value per graph state, so the step may RAISE chi^2 (or leave it unchanged):
+        # the vertices still end at pose [+] dx
+        graph, verts, eobjs, ids = structure_graph(P, g, kinds, edges, fixed, epoch_chi2=epoch)
         # binding by id, irrespective of list order
         for tup, e in zip(edges, eobjs):
             P.check("bound_count", len(e.vertices) == len(tup))
@@ -197,4 +199,5 @@ def cases(tier):
     out = [Case(_name(s), _case(*s), timeout=10, old_timeout=20, validate=1 if tier == "quick" or i >= 40 else 2, feas_timeout_ms=1000) for i, s in enumerate(structs)]
     out += [Case("twocalls%d" % i, _two_calls(*t), timeout=10, old_timeout=20, validate=1, feas_timeout_ms=1000) for i, t in enumerate(TWO_CALLS)]
     out += [Case("relinearized|" + _name(s), _case(*s, prelinearize=True), timeout=10, old_timeout=20, validate=1, feas_timeout_ms=1000) for s in QUICK]
+    out += [Case("anychi2|" + _name(s), _case(*s, epoch=True), timeout=10, old_timeout=20, validate=1, feas_timeout_ms=1000) for s in QUICK[:: (2 if tier == "quick" else 1)]]
     return out
